@@ -230,7 +230,27 @@ pub fn parsegen(prop: &str, seed: u64, runs: usize) -> Vec<J> {
                     c.choose(rng).map(|t| (t.1, t.2))
                 };
                 let replace = |span: (usize, usize), with: &str| format!("{}{}{}", &text[..span.0], with, &text[span.1..]);
-                let (mutant, note): (Option<String>, &str) = match rng.gen_range(0..14) {
+                let (mutant, note): (Option<String>, &str) = match rng.gen_range(0..17) {
+                    14 => {
+                        // names are case-sensitive: a function name in another case is an unknown function
+                        (pick(&mut rng, &["Ident"]).filter(|s| matches!(&text[s.0..s.1], "ite" | "random")).map(|s| {
+                            let w = &text[s.0..s.1];
+                            let v = match rng.gen_range(0..3) { 0 => w.to_uppercase(), 1 => format!("{}{}", w[..1].to_uppercase(), &w[1..]), _ => format!("{}{}", &w[..w.len() - 1], w[w.len() - 1..].to_uppercase()) };
+                            replace(s, &v)
+                        }), "function name in another case")
+                    }
+                    15 => {
+                        // ... and so are keywords: in another case they are identifiers
+                        (pick(&mut rng, &["Let", "Loop", "While", "Repeat", "Declare", "End", "Bits", "ResetRandom"]).map(|s| {
+                            let w = &text[s.0..s.1];
+                            let v = if rng.gen_bool(0.5) { w.to_uppercase() } else { format!("{}{}", w[..1].to_uppercase(), &w[1..]) };
+                            replace(s, &v)
+                        }), "keyword in another case")
+                    }
+                    16 => {
+                        // the other function's name: too few arguments for ite, too many for random
+                        (pick(&mut rng, &["Ident"]).filter(|s| matches!(&text[s.0..s.1], "ite" | "random")).map(|s| replace(s, if &text[s.0..s.1] == "ite" { "random" } else { "ite" })), "arity of the other function")
+                    }
                     0 => (pick(&mut rng, &["Semi"]).map(|s| replace(s, "")), "delete ;"),
                     1 => (pick(&mut rng, &["RParen"]).map(|s| replace(s, "")), "delete )"),
                     2 => (pick(&mut rng, &["Comma"]).map(|s| replace(s, "")), "delete ,"),
